@@ -1060,15 +1060,18 @@ class Terminal:
         if write:
             offset = self.pdo_out_off
             size = self.pdo_out_sz
-            start = 1
         else:
             offset = self.pdo_in_off
             size = self.pdo_in_sz
-            start = len(self.fmmu_used)
         assert size is not None
         assert offset is not None
 
-        index = start - self.fmmu_used[start::-1].index(None) - 1
+        # writes take the lowest free FMMU, reads the highest
+        if write:
+            index = self.fmmu_used.index(None)
+        else:
+            index = len(self.fmmu_used) \
+                    - self.fmmu_used[::-1].index(None) - 1
 
         self.fmmu_used[index] = logical
         try:
